@@ -60,7 +60,7 @@ def check(case, M):
         ys = B.flat(r["steps"])
         Y = [B.show(p) for p in ys]
         if not stopped:
-            if merged_any:
+            if merged_any or r["budget_cut"]:
                 pass            # stops only after 1000 unproductive rounds: observed on unary grammars only (tag)
             else:
                 fail("oracle", "the enumerator does not stop", f"still running after {r['rounds']} rounds, cheapest queued cost above every program of the language",
@@ -72,7 +72,9 @@ def check(case, M):
         rej = sorted(y for y in set(Y) & L if y not in accepted)
         if rej:
             fail("oracle", "a program rejected by the filter is yielded", str(rej[:3]))
-        if not merged_any:
+        if r["budget_cut"]:
+            pass            # inconclusive run: only what was yielded is judged
+        elif not merged_any:
             miss = sorted(strict - set(Y))
             if miss:
                 fail("oracle", "a program all of whose sub-programs are accepted is never yielded", f"{len(miss)} e.g. {miss[:3]}")
@@ -92,7 +94,7 @@ def check(case, M):
                 else:
                     merged.append(act[1])
             final_owed = {B.show(p) for p in lang if B.show(p) in strict and not any(B.contains(p, o) for o in merged)}
-            miss = sorted(final_owed - set(seen))
+            miss = sorted(final_owed - set(seen)) if not r["budget_cut"] else []
             if miss:
                 fail("oracle", "a program that contains no merged program is never yielded", f"{len(miss)} e.g. {miss[:3]}", ids["merge"])
     tags = B.base_tags(case, r)
@@ -101,7 +103,7 @@ def check(case, M):
         if accepted == strict:
             tags.append("filter-closed-on-language")
         if wont_stop:
-            tags.append("filter-rejects-a-program(C12-F7 region: never stops)")
+            tags.append("filter-rejects-a-program(C12-F11 region: never stops)")
     if merged_any:
         tags.append(f"merges:{sum(1 for a in r['script'] if a[0] == 'merge')}")
         tags.append("merge:stop-observed" if stopped else "merge:stop-not-observed(run cut)")
